@@ -352,8 +352,74 @@ def unit_canary():
     return Unit('canary/boundary-at-node', run, kind='canary', expect='refuted')
 
 
+def unit_cell_sides(degenerate):
+    """RectGrid.stride / RectPartition.cell_sides in object-array mode (2 axes, symbolic coordinates; axis 1 optionally a single node):
+    cell_sides == stride, with the extent of the partition on single-node axes; the array handed out is the caller's own - writing to it
+    (as cell_sides does) leaves the grid's cached stride, and what a second partition on the same grid sees, unchanged"""
+    def run(ctx):
+        I = ctx.I
+        import numpy as np
+        from pyvc import objnp
+        from pyvc.objnp import ONd
+
+        def path(st):
+            st.object_arrays = True
+            fr = ip.Frame(st)
+            sym = lambda n: S(z3.Real(n))
+            x0, d0 = sym('x0'), sym('d0')
+            st.assume(d0 > 0)
+            cv0 = ONd(np.array([x0, x0 + d0, x0 + 2 * d0], dtype=object))
+            y0, d1 = sym('y0'), sym('d1')
+            st.assume(d1 > 0)
+            cv1 = ONd(np.array([y0] if degenerate else [y0, y0 + d1], dtype=object))
+            g = ip.Obj(I.get_class('odl.discr.grid:RectGrid'))
+            g.fields.update({'_RectGrid__coord_vectors': (cv0, cv1), '_RectGrid__is_uniform_byaxis': (True, True), '_RectGrid__nondegen_byaxis': (True, not degenerate),
+                             '_RectGrid__stride': None})
+            g.partial = True
+
+            def part(tag):
+                p = ip.Obj(I.get_class('odl.discr.partition:RectPartition'))
+                s_ = ip.Obj(I.get_class('odl.set.domain:IntervalProd'))
+                lo = [sym('%s_lo%d' % (tag, k)) for k in range(2)]
+                hi = [sym('%s_hi%d' % (tag, k)) for k in range(2)]
+                for a, b in zip(lo, hi):
+                    st.assume(a < b)
+                s_.fields['_IntervalProd__min_pt'] = ONd(np.array(lo, dtype=object))
+                s_.fields['_IntervalProd__max_pt'] = ONd(np.array(hi, dtype=object))
+                s_.partial = True
+                p.fields['_RectPartition__set'] = s_
+                p.fields['_RectPartition__grid'] = g
+                p.partial = True
+                return p, lo, hi
+            p1, lo1, hi1 = part('p')
+            p2, lo2, hi2 = part('q')
+            try:
+                s_first = I._getattr(g, 'stride', fr)
+                cs1 = I._getattr(p1, 'cell_sides', fr)
+                s_after = I._getattr(g, 'stride', fr)
+                cs2 = I._getattr(p2, 'cell_sides', fr)
+            except ip.PyRaise as e:
+                return ('raise', e.exc)
+            return ('ok', dict(s_first=s_first, cs1=cs1, s_after=s_after, cs2=cs2, d0=d0, d1=d1, ext1=hi1[1] - lo1[1], ext2=hi2[1] - lo2[1], cache=g.fields.get('_RectGrid__stride')))
+        info = {'degenerate_axis': degenerate}
+        for st, (status, r) in ctx.explore(path):
+            if status == 'raise':
+                ctx.fail(st, 'no_raise', 'raises %s' % lib.exc_desc(r), info)
+                continue
+            a = lambda z: z.a if hasattr(z, 'a') else z
+            exp_stride = [r['d0'], 0.0 if degenerate else r['d1']]
+            eqs = lambda arr_, vals: s_and(*[core.sbool(core.sc_eq(x, y)) for x, y in zip(list(a(arr_).reshape(-1)), vals)])
+            ctx.prove(st, 'stride == node spacing (0 on a single-node axis)', eqs(r['s_first'], exp_stride), info)
+            ctx.prove(st, 'cell_sides == stride, extent of the partition on single-node axes', eqs(r['cs1'], [r['d0'], r['ext1'] if degenerate else r['d1']]), info)
+            ctx.prove(st, 'stride of the grid is unchanged after cell_sides of a partition wrote into the array it was given', eqs(r['s_after'], exp_stride), info)
+            ctx.prove(st, 'a second partition on the same grid sees its OWN extent on the single-node axis', eqs(r['cs2'], [r['d0'], r['ext2'] if degenerate else r['d1']]), info)
+            ctx.prove(st, 'the arrays handed out are not the grid\'s cache object', a(r['s_first']) is not a(r['cache']) and a(r['cs1']) is not a(r['cache']) and a(r['s_after']) is not a(r['cache']), info)
+    return Unit('sides/%s' % ('single-node-axis' if degenerate else 'regular'), run, funcs=['odl.discr.grid:RectGrid.stride', 'odl.discr.partition:RectPartition.cell_sides'],
+                config={'degenerate_axis': degenerate})
+
+
 def units(tier, seed):
-    us = [unit_bdry(), unit_sizes(), unit_index(False), unit_index(True)]
+    us = [unit_bdry(), unit_sizes(), unit_index(False), unit_index(True), unit_cell_sides(False), unit_cell_sides(True)]
     for missing in (None, 'min_pt', 'max_pt', 'cell_sides'):
         for bl, br in itertools.product((False, True), repeat=2):
             us.append(unit_uniform(missing, bl, br))
